@@ -32,7 +32,7 @@ def run(ctx):
     ctx.assumptions = ASSUME
     facts = common.regen_facts(ctx)
     ctx.coverage["generated_facts"] = facts_summary(facts)
-    ok, out = common.lean_obligations(ctx, MODULE, ["TriompheModel.Props.Gates", "TriompheModel.WM.Consume"])
+    ok, out = common.lean_obligations(ctx, MODULE, ["TriompheModel.Props.Gates", "TriompheModel.WM.Consume", "TriompheModel.WM.RelSeq"])
 
     # supporting validation + failing-input search: Miri litmus programs on the working tree
     progs = QUICK if not ctx.thorough() else (miri.programs_for("C02") + ["try_unwrap_vs_drop", "racing_try_unwrap_2t", "unwrap_or_clone_vs_drop", "try_unique_vs_drop"])
